@@ -91,8 +91,15 @@ func (v *Vue) evalSlot(ctx VueContext, node *html.Node, slotScope *SlotScope) ([
 				ctx.stack.Push(nil)
 				defer ctx.stack.Pop()
 
-				// If there's a scoped variable name, use it; otherwise use the props directly
-				if scopedVarName != "" {
+				// A destructuring pattern binds the listed props by name; a plain name binds the props object;
+				// otherwise the props are set directly
+				if names, ok := destructuredNames(scopedVarName); ok {
+					for _, name := range names {
+						if val, exists := slotProps[name]; exists {
+							ctx.stack.Set(name, val)
+						}
+					}
+				} else if scopedVarName != "" {
 					ctx.stack.Set(scopedVarName, slotProps)
 				} else {
 					// Set the slot props directly in the context
@@ -141,4 +148,19 @@ func (v *Vue) evalSlot(ctx VueContext, node *html.Node, slotScope *SlotScope) ([
 	}
 
 	return []*html.Node{}, nil
+}
+
+// destructuredNames parses a destructuring pattern like "{ item, index }" into its names.
+func destructuredNames(pattern string) ([]string, bool) {
+	pattern = strings.TrimSpace(pattern)
+	if !strings.HasPrefix(pattern, "{") || !strings.HasSuffix(pattern, "}") {
+		return nil, false
+	}
+	var names []string
+	for _, part := range strings.Split(pattern[1:len(pattern)-1], ",") {
+		if part = strings.TrimSpace(part); part != "" {
+			names = append(names, part)
+		}
+	}
+	return names, true
 }
